@@ -147,7 +147,8 @@ Proof.
   destruct dc as [|l u|l nls u|l u]; cbn [dec_ok] in Hok.
   - (* "\n" *)
     cbn. split; [|reflexivity].
-    pose proof (rel_add_line _ _ 0 Hb) as H2. rewrite !Z.add_0_r in H2.
+    pose proof (rel_advance _ _ 1 Hb ltac:(lia)) as Hb1.
+    pose proof (rel_add_line _ _ 0 Hb1) as H2. rewrite !Z.add_0_r in H2.
     pose proof (rel_advance _ _ 1 H2 ltac:(lia)) as H3. exact (rel_mark _ _ H3).
   - (* line comment *)
     assert (Hc : rel (if first && isend && has_comment_field kind then add_field_comment u1 id (cursor u1, l, u)
